@@ -145,3 +145,28 @@ def panel_case(draw, models=('plate', 'plate_w', 'cpanel', 'kpanel'), mmax=5, mm
     if with_mu:
         case['mu'] = draw(gen.logfl(1., 1e4))
     return case
+
+
+@st.composite
+def high_order_case(draw, tier='quick', with_mu=False):
+    """constant-geometry panels (plate, w-only plate, cylindrical panel, full width) with series orders up to 30 in either direction;
+    compared with the exact separable reference (ref.exact).  quick: m*n <= 330, thorough: up to 30 x 30."""
+    model = draw(st.sampled_from(['plate', 'cpanel', 'plate_w', 'plate', 'cpanel']))
+    cap = 330 if tier == 'quick' else 900
+    m = draw(st.integers(7, 30))
+    n = draw(st.integers(7, 30))
+    if draw(st.booleans()):
+        m, n = n, m
+    while m * n > cap:
+        if m >= n:
+            m -= 1
+        else:
+            n -= 1
+    a = draw(gen.fl(0.2, 3.))
+    b = draw(gen.fl(0.2, 3.))
+    case = {'model': model, 'a': a, 'b': b, 'r': draw(gen.logfl(0.5, 50.)) * max(a, b) if model == 'cpanel' else None, 'alphadeg': None,
+            'm': m, 'n': n, 'lam': draw(gen.laminate_case(max_plies=3)), 'flags': draw(gen.flags24()), 'y': None,
+            'uniform_form': draw(st.booleans()), 'explicit_model': False}
+    if with_mu:
+        case['mu'] = draw(gen.logfl(100., 5000.))
+    return case
